@@ -30,9 +30,13 @@
 #include "c10_probe.inc"
 #else
 #define C10_HAVE_PUBLIC_NOT 0
+#define C10_HAVE_TO_CHARS_SIGNED 1
+#define C10_HAVE_TO_CHARS_UNSIGNED 0
 #define C10_HAVE_MIXED_WIDTH_ARITH 0
-#define C10_HAVE_MIXED_WIDTH_CMP 1
+#define C10_HAVE_MIXED_WIDTH_CMP_REL 1
+#define C10_HAVE_MIXED_WIDTH_CMP_EQ 1
 #define C10_HAVE_MIXED_SIGN_ARITH 0
+#define C10_HAVE_OR_XOR_BUILTIN 0
 #define C10_BAD_TYPES {2048, 1, 32},
 #endif
 
@@ -212,13 +216,14 @@ template<class T>
 
 // all pairs of `vals` (bit patterns) through the 8 binary operators and 6 comparisons; lean
 template<class T>
-[[gnu::noinline]] static void prog_vend_binary(std::string const& name, std::vector<u128> const& vals_, bool full)
+[[gnu::noinline]] static void prog_vend_binary(std::string const& name, std::vector<u128> const& vals_, std::vector<u128> const& valsb_, bool full)
 {
     using O = Orc<uw<T>::width, uw<T>::is_signed>;
     using U = typename O::U;
     if (!vf::begin(name, full)) return;
-    std::vector<U> V;
+    std::vector<U> V, VB;
     for (u128 v : vals_) V.push_back(U(v));
+    for (u128 v : valsb_) VB.push_back(U(v));
     bool replay = vf::replaying();
     u128 ra = 0, rb = 0;
     if (replay && !parse_hex_pair(vf::g.replay_case, ra, rb)) return;
@@ -231,7 +236,7 @@ template<class T>
         T const A = uw_make<T>(a);
         uint64_t n_cases = 0, n_nontrivial = 0, n_wrap = 0, n_nowrap = 0, n_div0 = 0, n_valid = 0, n_viol = 0;
         bool a_multi = (O::mag(a) >> (lb - 1)) != 0 || O::neg(a);
-        for (U b : V) {
+        for (U b : VB) {
             if (replay && u128(b) != rb) continue;
             T const B = uw_make<T>(b);
             U g_add = 0, g_sub = 0, g_mul = 0, g_div = 0, g_mod = 0, g_and = 0, g_or = 0, g_xor = 0;
@@ -279,8 +284,8 @@ template<class T>
         add_outcome("ok_binary_sum_or_product_wrapped", n_wrap);
         add_outcome("ok_binary_exact_in_range", n_nowrap);
         add_outcome("wrong_or_trapped", n_viol);
-        if (vf::g.cur->samples.size() < 3 && !V.empty()) {
-            U b = V[V.size() / 3];
+        if (vf::g.cur->samples.size() < 3 && !VB.empty()) {
+            U b = VB[VB.size() / 3];
             vf::sample(hex128(a) + "," + hex128(b) + " -> a*b=" + O::str(O::mul(a, b)) + (b ? " a/b=" + O::str(O::div(a, b)) : ""));
         }
     }
